@@ -92,6 +92,13 @@ pub fn run_enum(name: &str, args: &[String], w: &mut dyn Write) -> bool {
       for y in [-3i64, -1, 0, 1, 2, 2024, 9999, 10000] { for idx in [-50i64, -25, -24, -1, 0, 23, 24, 25, 47, 48, 1000] {
         writeln!(w, "new {} {} {}", y, idx, guard(|| go("term.new", &[y, idx]))).unwrap();
       }}
+      // the INSTANT of a term constructed with a wrapped index (negative, or 24 and more) is the instant of the term it names
+      for y in 2i64..=9998 {
+        if !(y % 50 == 0 || y <= 30 || y >= 9990 || (1570..=1600).contains(&y)) { continue; }
+        for idx in [-49i64, -25, -24, -13, -12, -11, -1, 24, 25, 35, 36, 47, 48] {
+          writeln!(w, "wday {} {} {}", y, idx, guard(|| go("term.day", &[y, idx]))).unwrap();
+        }
+      }
     }
     _ => { return false; }
   }
